@@ -790,7 +790,10 @@ def replay(ctx, leg, case):
     if leg == 'missing-operand':
         got = env.parse(text)
         if not (got[0] == 'err' and got[1] in (error.MISSING_OPERAND, error.STX)):
-            part.violation('missing-operand/replay', '%r -> %r' % (text, got), case)
+            key = ('missing-operand/other-error-from-operators-applied-to-shifted-operands'
+                   if got[0] == 'err' else 'missing-operand/replay/no-error')
+            part.violation(key, 'PRINT %s -> %r; expected Missing operand (or Syntax error inside parentheses)' % (
+                text.decode(), show(got)), case)
         return part
     t = eval(case['tree'], {'__builtins__': {}})
     k = len(case['types'])
